@@ -19,6 +19,7 @@ func init() {
 			"R1 Get normalises the requested size through the pool's class function before indexing, guards the index by the shard count and returns the class size; Put stores into a shard only behind guards on its size parameter: the lower bound by the step, membership in the size classes (class function applied to the size compared with the size itself) and the index bound - so whatever sits in shard i has at least that shard's class size; " +
 			"R2 callers re-slice a pooled buffer only up to the size they requested (or its capacity); R3 one Put stores the object exactly once (not in a loop); the wrappers' Get returns the pooled object or a fresh allocation of the CLASS size returned by the generic Get (not of the requested size); " +
 			"R4 the wrappers index by capacity: pbytes.Put passes cap(*b), pbuffer.Put passes Cap() and resets the buffer BEFORE handing it to the pool; R5 the bit-fill helper the power-of-two functions rest on is the unconditional shift cascade 1,2,4,8,16,32 (or math/bits). " +
+			"ALSO: generic Get hands out only sync.Pool.Get results; typed pools only generic-pool results or fresh objects, and give objects to the generic pool only; the library's pool users put once. " +
 			"DOES NOT DECIDE: pmath arithmetic for every integer, shard count computation in New for every max, sync.Pool's own guarantees (trusted).",
 		Assumptions: []string{"sync.Pool never hands one object to two getters"},
 		Run:         runC19,
